@@ -1,0 +1,41 @@
+//! Verification hooks, only compiled with the `verif` feature.
+//!
+//! Deterministic simulation needs transaction identifiers to be a function
+//! of the simulation seed. When a seed has been installed on the current
+//! thread, [`TransactionId::default`](crate::TransactionId) draws from a
+//! `SplitMix64` stream instead of the operating system random generator.
+//! Without a call to [`seed_transaction_ids`] the behaviour is unchanged.
+
+use crate::TransactionId;
+use std::cell::Cell;
+
+thread_local! {
+    static TXID_STATE: Cell<Option<u64>> = const { Cell::new(None) };
+}
+
+/// Installs (`Some(seed)`) or removes (`None`) the deterministic transaction
+/// identifier source of the calling thread.
+pub fn seed_transaction_ids(seed: Option<u64>) {
+    TXID_STATE.with(|s| s.set(seed));
+}
+
+fn splitmix64(state: &mut u64) -> u64 {
+    *state = state.wrapping_add(0x9E37_79B9_7F4A_7C15);
+    let mut z = *state;
+    z = (z ^ (z >> 30)).wrapping_mul(0xBF58_476D_1CE4_E5B9);
+    z = (z ^ (z >> 27)).wrapping_mul(0x94D0_49BB_1331_11EB);
+    z ^ (z >> 31)
+}
+
+pub(crate) fn next_transaction_id() -> Option<TransactionId> {
+    TXID_STATE.with(|s| {
+        let mut state = s.get()?;
+        let a = splitmix64(&mut state).to_be_bytes();
+        let b = splitmix64(&mut state).to_be_bytes();
+        s.set(Some(state));
+        let mut id = [0u8; 12];
+        id[..8].copy_from_slice(&a);
+        id[8..].copy_from_slice(&b[..4]);
+        Some(TransactionId::from(id))
+    })
+}
